@@ -1,5 +1,5 @@
 (* Props_C12.v — C12: a probe succeeds only on genuine evidence; indirect probing is routed correctly. *)
-From Foca Require Import Laws MembersM ProbeM FocaM WireM L_Members L_MembersInv Inv L_Wire L_Probe.
+From Foca Require Import Laws MembersM ProbeM FocaM WireM L_Members L_MembersInv Inv L_Wire L_Probe L_RoundEnd.
 
 Section C12.
 Context {Id Addr : Type} {IO : IdOps Id Addr} {CO : CodecOps Id} {HO : HandlerOps Id}.
@@ -87,6 +87,35 @@ Theorem C12_indirect_for_ourselves (rnd : oracle) (src : Id) (msg : message Id) 
   react rnd src msg s = (s, RErr EIndirectForOurselves).
 Proof. exact (indirect_for_ourselves rnd src msg s). Qed.
 
+(* ROUND END: the suspicion timeouts scheduled by a live ProbeRandomMember call are exactly:
+   one - for the target of the round that just ended, carrying the incarnation it was probed at and
+   the current token, after suspect_to_down_after - iff that round produced no evidence
+   (C12_failed_iff_no_evidence) and the target is still an active record after the Suspect update;
+   none otherwise (round succeeded, aborted / cleared, or the target is gone or already Down) *)
+Theorem C12_round_end (rnd : oracle) (f : @foca Id Addr HO) :
+  conn f = Connected ->
+  let es := snd (fst (fst (step rnd f (ITimer (TProbeRandomMember (token f)))))) in
+  let prb1 := if negb (probe_validate (prb f)) then probe_clear (prb f) else prb f in
+  filter (fun e => match e with Submit (TChangeSuspectToDown _ _ _) _ => true | _ => false end) es =
+  match snd (probe_take_failed prb1) with
+  | Some fm =>
+      match apply_existing_if (mems f) (mkMember (m_id fm) (m_inc fm) Suspect) (fun _ => true) with
+      | Some (_, sm) =>
+          if is_active_now sm
+          then [Submit (TChangeSuspectToDown (m_id fm) (m_inc fm) (token f)) (suspect_to_down_after (cfg f))]
+          else []
+      | None => []
+      end
+  | None => []
+  end.
+Proof.
+  intros Cn. cbn [step]. unfold run_unit, handle_timer, bind at 1, get at 1. cbv beta iota. cbn [st].
+  rewrite N.eqb_refl, Cn. cbn [conn_eqb negb].
+  destruct (probe_round_end rnd (mkRs f [] 0) Cn) as (new & O & E).
+  destruct (probe_random_member rnd (mkRs f [] 0)) as [s' r]. cbn [fst snd out] in *.
+  cbn [app] in O. rewrite O. exact E.
+Qed.
+
 End C12.
 
 Print Assumptions C12_direct_evidence.
@@ -100,3 +129,4 @@ Print Assumptions C12_relay_ping_req.
 Print Assumptions C12_relay_indirect_ping.
 Print Assumptions C12_relay_indirect_ack.
 Print Assumptions C12_indirect_for_ourselves.
+Print Assumptions C12_round_end.
